@@ -33,8 +33,20 @@ class NextResponse(StreamingResponse):
     This is a response object for middleware.
     """
 
+    # Set-Cookie is the one header that repeats and must not be comma-folded
+    raw_set_cookies: Tuple[str, ...] = ()
+
     def render_stream(self) -> Generator[bytes, None, None]:
         yield from self.iterable
+
+    def list_headers(self, *, as_bytes):
+        headers = super().list_headers(as_bytes=as_bytes)
+        for cookie in self.raw_set_cookies:
+            if as_bytes:
+                headers.append((b"set-cookie", cookie.encode("latin-1")))
+            else:
+                headers.append(("set-cookie", cookie))
+        return headers
 
     @classmethod
     def from_app(cls, app: WSGIApp, request: NextRequest) -> "NextResponse":
@@ -43,17 +55,27 @@ class NextResponse(StreamingResponse):
         """
         status_code = 200
         headers: Headers = Headers()
+        set_cookies: Tuple[str, ...] = ()
 
         def start_response(
             status: str, response_headers: Iterable[Tuple[str, str]], exc_info=None
         ) -> None:
             nonlocal status_code
             nonlocal headers
+            nonlocal set_cookies
             status_code = int(status.split(" ")[0])
-            headers = Headers(response_headers)
+            response_headers = list(response_headers)
+            headers = Headers(
+                (k, v) for k, v in response_headers if k.lower() != "set-cookie"
+            )
+            set_cookies = tuple(
+                v for k, v in response_headers if k.lower() == "set-cookie"
+            )
 
         body = ensure_next(app(request, start_response))
-        return NextResponse(body, status_code, headers)
+        response = NextResponse(body, status_code, headers)
+        response.raw_set_cookies = set_cookies
+        return response
 
 
 def middleware(
